@@ -27,6 +27,7 @@ func runC16(c *core.Ctx) {
 	c.RuleDoc("R16.3", "cursor stored on every paging path; stored value depends on old cursor or listing length")
 	c.RuleDoc("R16.4", "by-name listings sorted by construction")
 	c.RuleDoc("R16.5", "listing failure wrapped in *PathError")
+	c.RuleDoc("R16.8", "the mount table matches names against mount points on path-element boundaries (listed siblings are Stat'ed in the file system that listed them)")
 	c.RuleDoc("R16.7", "the page end is computed without integer overflow")
 	c.RuleDoc("R16.6", "the paged listing is stable per handle (memoised or sorted); children are enumerated on element boundaries")
 	for _, p := range c.Progs {
@@ -63,6 +64,9 @@ func runC16(c *core.Ctx) {
 			c.Hard("anchor: expected >= 2 windowing ReadDir implementations, found %d", windowing)
 		}
 		r16Sorted(c, p)
+		// R16.8: the mount table resolves a name on element boundaries: a sibling whose name merely starts with a mount
+		// point's name ("lib64" next to the mount point "lib") is listed by the root but would be Stat'ed inside the mount
+		boundaryTests(c, p, "R16.8", "mount")
 		// R16.6b: the in-memory store enumerates children by key prefix on element boundaries only
 		if fr := p.Method("mem", "fileRecord", "ReadDirNames"); fr != nil {
 			for _, v := range prefixTests(p, fr) {
@@ -74,6 +78,7 @@ func runC16(c *core.Ctx) {
 	}
 	c.Floor("R16.6", 3)
 	c.Floor("R16.7", 2)
+	c.Floor("R16.8", 1)
 	c.Floor("R16.1", 2)
 	c.Floor("R16.2", 2)
 	c.Floor("R16.3", 2)
